@@ -24,10 +24,18 @@ ENV = dict(os.environ, GOFLAGS='-mod=mod', GOPROXY='off', GOSUMDB='off', GOTOOLC
 
 def sh(cmd, cwd=None, timeout=None, env=None):
     """Run a command in its own process group; on timeout kill the whole group (coqc/coqchk children included)."""
-    import signal
+    import signal, resource
+
+    def _limits():
+        # coqc needs a deep stack for big case lists (a 600 kB `cases` literal overflows the default 8 MB)
+        try:
+            soft, hard = resource.getrlimit(resource.RLIMIT_STACK)
+            resource.setrlimit(resource.RLIMIT_STACK, (hard, hard))
+        except Exception:
+            pass
     t = time.time()
     p = subprocess.Popen(cmd, cwd=cwd, shell=isinstance(cmd, str), stdout=subprocess.PIPE, stderr=subprocess.STDOUT,
-                         env=env or ENV, start_new_session=True)
+                         env=env or ENV, start_new_session=True, preexec_fn=_limits)
     try:
         out, _ = p.communicate(timeout=timeout)
         return p.returncode, out.decode(errors='replace'), time.time() - t
